@@ -39,7 +39,9 @@ def required_cells(tier):
            "tau:0": 1, "tau:finite": 1, "tau:inf": 1, "basis:rotated": 2,
            "degenerate_o": 1, "unique": 2, "api:tempo": 3, "api:pt": 3,
            "modes": 2, "modes:lindblad": 1, "custom_j": 1,
-           "long-times": 3}
+           "long-times": 3, "pt-route:file": 2, "pt-route:auto-file": 2,
+           "pt-route:reimport-file": 2, "pt-route:file+reopen-simple": 2,
+           "pt-route:file-or-import&rotated": 4}
     return req
 
 
@@ -140,18 +142,28 @@ def _custom_j(p):
     return lambda w: 2.0 * a * w ** z * wc ** (1 - z) * (1.0 + 0.5 * w / (w + wc))
 
 
-def _run_lib(api, system, bath, rho0, start, dt, nsteps, params, unique):
+ROUTES = ("memory", "memory", "file", "auto-file", "reimport-file",
+          "memory", "file+reopen-simple")
+
+
+def _run_lib(api, system, bath, rho0, start, dt, nsteps, params, unique,
+             route="memory"):
+    """route: how the PT-TEMPO process tensor is held - in memory, computed
+    straight into a file (own name / library's temporary file), or exported
+    and imported again."""
     import oqupy
+    from vp import lib
     end = start + (nsteps + 0.4) * dt
     if api == "tempo":
         t = oqupy.Tempo(system, bath, params, rho0, start, unique=unique)
         dyn = t.compute(end, progress_type="silent")
     else:
-        pt = oqupy.pt_tempo_compute(bath, start, end, params, unique=unique,
-                                    progress_type="silent")
-        dyn = oqupy.compute_dynamics(system, rho0, start_time=start,
-                                     process_tensor=pt,
-                                     progress_type="silent")
+        fb = {"file": True, "auto-file": "auto",
+              "file+reopen-simple": True}.get(route, False)
+        re = {"reimport-file": "file"}.get(route)
+        dyn = lib.run_pt_bath(system, bath, rho0, start, dt, nsteps, params,
+                              unique, 256, fb, re, reopen="simple" if
+                              route == "file+reopen-simple" else None)
     return dyn
 
 
@@ -205,8 +217,10 @@ def run_commuting(case):
     start = 0.0 if case["idx"] % 4 else 1.7
     counter = ShapeCounter(type(corr))
     try:
+        route = ROUTES[(case["idx"] // 2) % len(ROUTES)] \
+            if g["api"] == "pt" else "memory"
         dyn = _run_lib(g["api"], system, bath, rho0, start, dt, nsteps,
-                       params, g["unique"])
+                       params, g["unique"], route)
     finally:
         counter.close()
     states = np.array(dyn.states)
@@ -261,6 +275,10 @@ def run_commuting(case):
         cells.append("custom_j")
     if g["long_times"]:
         cells.append("long-times")
+    if route != "memory":
+        cells.append("pt-route:" + route)
+        if g["vkind"] != "identity":
+            cells.append("pt-route:file-or-import&rotated")
     if rescaled:
         cells.append("rescaled_to_conditioning_guard")
     sig = ("comm", d, p["cutoff_type"], p["temperature"] == 0, kclass, tclass,
